@@ -149,6 +149,22 @@ def run_miri_conc(c, tier, t_budget_note):
                                                  'fault': f'miri seed {ms}, preemption rate {rate}', 'detail': detail}})
                 return stats, violations, time.time() - t0
         stats['batches'].append({'programs': [lo, hi], 'preemption_rate': rate, 'miri_seeds': f'0..{seeds}'})
+    # two threads on one > 16 MiB buffer on a 32-bit target (length stored inside the shared block)
+    miri_setup(c, 'i686-unknown-linux-gnu')
+    flags = [f'-Zmiri-many-seeds=0..{seeds}', '-Zmiri-preemption-rate=0.2']
+    rc, out = miri_run(c, ['big32-conc'], flags, target='i686-unknown-linux-gnu', timeout=3600)
+    stats['big32_conc_i686'] = {'miri_seeds': f'0..{seeds}', 'variants': 4, 'ok': rc == 0}
+    stats['executions'] += seeds * 4
+    if rc != 0:
+        fs = failing_seeds(out) or [0]
+        detail = miri_error_summary(out)
+        os.makedirs(c.REPLAYS, exist_ok=True)
+        path = os.path.join(c.REPLAYS, f'C04-mirisim-big32conc-seed{fs[0]}.json')
+        json.dump({'property': 'C04', 'engine': 'mirisim', 'mode': 'big32-conc', 'target': 'i686-unknown-linux-gnu', 'miri_seed': fs[0],
+                   'preemption_rate': '0.2', 'miri_error': detail, 'output_tail': out[-3000:]}, open(path, 'w'), indent=1)
+        violations.append({'class': 'miri_big32_conc|i686', 'count': len(fs), 'replay': path,
+                           'violation': {'invariant': 'miri_big32_conc', 'op': 'two threads on a >16 MiB buffer', 'target': 'i686-unknown-linux-gnu',
+                                         'fault': f'miri seed {fs[0]}', 'detail': detail}})
     return stats, violations, time.time() - t0
 
 
@@ -267,7 +283,7 @@ def replay(c, path, j):
     if j.get('engine') == 'mirisim':
         miri_setup(c)
         flags = [f"-Zmiri-seed={j['miri_seed']}", f"-Zmiri-preemption-rate={j['preemption_rate']}"]
-        if j.get('mode') in ('big32', 'big32-min'):
+        if j.get('mode') in ('big32', 'big32-min', 'big32-conc'):
             rc, out = miri_run(c, [j['mode']], flags, target=j.get('target'))
         elif j.get('mode') == 'bighist':
             rc, out = miri_run(c, ['bighist', '--seed', str(j['seed']), '--from', str(j['index']), '--to', str(j['index'] + 1), '--steps', str(j['steps'])], flags, target=j.get('target'))
